@@ -137,7 +137,9 @@ func entityAt(s string) (decoded string, n int, ok bool) {
 		return string(validRune(v)), len(m[0]), true
 	}
 	if m := reEntName.FindString(s); m != "" {
-		if d := html.UnescapeString(m); d != m {
+		// html.UnescapeString falls back to the legacy names without semicolon ("&amp2;" -> "&2;"): the whole name has
+		// matched only if nothing of it is left over, i.e. the result does not end with the reference's own ';'
+		if d := html.UnescapeString(m); d != m && (!strings.HasSuffix(d, ";") || m == "&semi;") && utf8.RuneCountInString(d) <= 2 {
 			return d, len(m), true
 		}
 	}
@@ -397,6 +399,12 @@ func (p *inlineParser) parse() {
 				p.atom(`<a href="mailto:`+href+`">`+escHTMLText(m[1])+`</a>`, m[1], true)
 				i += len(m[0])
 				break
+			}
+			if i+2 < len(s) && s[i+1] == '!' && s[i+2] >= 'a' && s[i+2] <= 'z' {
+				// "<!" + lower-case letter: whether this opens a declaration changed between versions of the specification
+				// and no example settles it; the model declines
+				p.ok = false
+				return
 			}
 			matched := ""
 			for _, re := range []*regexp.Regexp{reOpenTag, reCloseTag, reComment, rePI, reDecl, reCDATA} {
